@@ -7,11 +7,12 @@ rm -rf $W; mkdir -p /tmp/vs; git -C /repo worktree prune; git -C /repo worktree 
 cp -r /repo/target $W/target 2>/dev/null
 cd $W
 git apply $S/demo.diff || { echo "demo.diff does not apply"; exit 2; }
-sh $S/run_demo.sh > $W/demo_base.log 2>&1; a=$?
+mkdir -p $W/SEED && cp $S/run_demo.sh $W/SEED/run_demo.sh
+bash SEED/run_demo.sh > $W/demo_base.log 2>&1; a=$?
 git apply $S/patch.diff || { echo "patch.diff does not apply"; exit 2; }
 cargo test --workspace --offline --no-fail-fast --lib --bins -- --skip seed_demo > $W/suite.log 2>&1; b=$?
 npass=$(grep -E "^test result" $W/suite.log | awk '{s+=$4} END {print s}')
-sh $S/run_demo.sh > $W/demo_patched.log 2>&1; c=$?
+bash SEED/run_demo.sh > $W/demo_patched.log 2>&1; c=$?
 echo "$1 base=$BASE demo_on_base=$a suite_with_patch=$b (passed=$npass) demo_with_patch=$c"
 cd /; git -C /repo worktree remove --force $W
 [ $a -eq 0 ] && [ $b -eq 0 ] && [ "$npass" = "142" ] && [ $c -ne 0 ]
